@@ -706,6 +706,10 @@ func codecPattern(i int) byte { return byte(i*7 + i>>11 + 13) }
 // codecItemStep: item i has size + i*codecItemStep bytes.
 var codecItemStep = 7
 
+// codecFastPeer: default socket buffers and a peer that reads from the start, concurrently with the writer, so that a large item
+// goes out in a long run of short writes none of which would block.
+var codecFastPeer = 0 // 1: reads from the start, small socket buffers; 2: reads from the start, default buffers
+
 func codecRealTransport(seed uint64, items, size int) (ok bool, why string) {
 	runtime.LockOSThread()
 	defer runtime.UnlockOSThread()
@@ -721,7 +725,7 @@ func codecRealTransport(seed uint64, items, size int) (ok bool, why string) {
 	defer ln.Close()
 	// small socket buffers, so that every item runs into would-block several times; the receive buffer is set on the listener
 	// (accepted sockets inherit it): shrinking it on an established loopback connection stalls every refill for ~600 ms
-	if rc, err := ln.(*net.TCPListener).SyscallConn(); err == nil {
+	if rc, err := ln.(*net.TCPListener).SyscallConn(); err == nil && codecFastPeer != 2 {
 		_ = rc.Control(func(fd uintptr) { _ = syscall.SetsockoptInt(int(fd), syscall.SOL_SOCKET, syscall.SO_RCVBUF, 16384) })
 	}
 	conn, err := sonic.Dial(ioc, "tcp", ln.Addr().String())
@@ -734,7 +738,9 @@ func codecRealTransport(seed uint64, items, size int) (ok bool, why string) {
 		return false, "accept"
 	}
 	defer peer.Close()
-	_ = syscall.SetsockoptInt(conn.RawFd(), syscall.SOL_SOCKET, syscall.SO_SNDBUF, 16384)
+	if codecFastPeer != 2 {
+		_ = syscall.SetsockoptInt(conn.RawFd(), syscall.SOL_SOCKET, syscall.SO_SNDBUF, 16384)
+	}
 	src, dst := sonic.NewByteBuffer(), sonic.NewByteBuffer()
 	cc, err := sonic.NewCodecConn[[]byte, []byte](conn, frame.NewCodec(src), src, dst)
 	if err != nil {
@@ -753,7 +759,9 @@ func codecRealTransport(seed uint64, items, size int) (ok bool, why string) {
 	}
 	rc := make(chan rres, 1)
 	go func() {
-		time.Sleep(120 * time.Millisecond) // let the sender run into a full socket first
+		if codecFastPeer == 0 {
+			time.Sleep(120 * time.Millisecond) // let the sender run into a full socket first
+		}
 		var out rres
 		hdr := make([]byte, 4)
 		for {
@@ -870,6 +878,21 @@ func codecDirect(seed uint64, tier string, args []string, w *bufio.Writer) {
 			}
 		}
 		codecItemStep = 7
+		// large items to a peer that drains as fast as they are written: one AsyncWriteNext is many short writes in a row
+		for _, v := range [][3]int{{1, 80, 1 << 20}, {1, 25, 4 << 20}, {2, 14, 24 << 20}} {
+			fn := v[1]
+			if tier == "thorough" {
+				fn *= 4
+			}
+			if memAvailableKiB() < 4<<20 {
+				break
+			}
+			codecFastPeer = v[0]
+			if ok, why := codecRealTransport(seed+99, fn, v[2]); !ok {
+				fail("real-transport", fmt.Sprintf("%d items of %d MiB to a peer that reads concurrently (buffers: %d): %s", fn, v[2]>>20, v[0], why))
+			}
+		}
+		codecFastPeer = 0
 	}
 	// the encoder at the limit: payloads of MaxPayloadLength - 1 and MaxPayloadLength are accepted, one byte more is refused
 	// (Encode only; the full round trip through a connection is left to the thorough tier). The payload pages are never
